@@ -245,6 +245,54 @@ def machine_part(name, machine, examples, steps=30):
     return {"name": name, "machine": machine, "examples": examples, "steps": steps}
 
 
+def fuzz_part(name, prop_id, maker, runs):
+    """Thorough-tier stage: atheris/libFuzzer drives the Hypothesis property `maker` of module prop_id."""
+    def run(stats, seed, shard, nshards):
+        import subprocess
+        work = os.path.join(VERIF, ".work", prop_id)
+        os.makedirs(work, exist_ok=True)
+        out = os.path.join(work, f"fuzz-{name}-{shard}.json")
+        corpus = out + ".corpus"
+        import shutil
+        shutil.rmtree(corpus, ignore_errors=True)
+        if os.path.exists(out):
+            os.remove(out)
+        per = max(1, runs // nshards)
+        cmd = [sys.executable, "-B", "-m", "harness.fuzz", prop_id, maker, "--runs", str(per), "--seed", str(seed * 64 + shard + 1), "--out", out]
+        try:
+            subprocess.run(cmd, cwd=VERIF, stdout=subprocess.DEVNULL, stderr=subprocess.DEVNULL, timeout=float(os.environ.get("VERIF_FUZZ_CAP_S", "7200")))
+        except subprocess.TimeoutExpired:
+            stats.count("fuzz-timeout")
+        if not os.path.exists(out):
+            stats.count("fuzz-no-output")
+            return
+        with open(out) as f:
+            j = json.load(f)
+        shutil.rmtree(corpus, ignore_errors=True)
+        if "skipped" in j:
+            stats.count("fuzz-skipped:" + j["skipped"][:60])
+            return
+        st = j["stats"]
+        stats.evaluations += st["evaluations"]
+        stats.count("fuzz-executions", j["executions"])
+        for k, c in st["counters"].items():
+            stats.count(k, c)
+        for d in st["nontrivial"]:
+            stats.nontrivial.add(bytes.fromhex(d))
+        for smp in st["samples"]:
+            if len(stats.samples) < 12:
+                stats.samples.append(smp)
+        for k, c in st["excluded_known"].items():
+            stats.excluded_known[k] = stats.excluded_known.get(k, 0) + c
+        if j.get("error"):
+            from harness.build import HarnessError
+            raise HarnessError(j["error"])
+        if j["violations"]:
+            v = j["violations"][0]
+            raise Violation(v["property"], v["sub_check"], v["signature"], v["case"], v["message"])
+    return {"name": name, "run": run}
+
+
 def run_part(name, run):
     return {"name": name, "run": run}
 
